@@ -214,6 +214,17 @@ func (p Parents) Known(n ast.Node, stop ast.Node) []Cond {
 			if child == ast.Node(s.Body) && s.Cond != nil {
 				Split(s.Cond, true, s, &out)
 			}
+		case *ast.BinaryExpr:
+			// short-circuit evaluation: the right operand of && is evaluated when the left one held, that of ||
+			// when it did not
+			if child == ast.Node(s.Y) {
+				switch s.Op {
+				case token.LAND:
+					Split(s.X, true, s, &out)
+				case token.LOR:
+					Split(s.X, false, s, &out)
+				}
+			}
 		case *ast.CaseClause:
 			// switch { case c: } => c holds (single expr); switch tag { case v: } => tag == v
 			if sw, ok := p[p[s]].(*ast.SwitchStmt); ok {
